@@ -14,7 +14,9 @@ const NUM_O: &[&str] = &["-", "0", "1", "2", "3", "4"];
 const FLAG_C: &[&str] = &["-", "0", "1"];
 const FLAG_O: &[&str] = &["-", "0", "1"];
 const OPT_C: &[&str] = &["-", "!", "0", "5"]; // "!" = explicitly disabled, see `tok`
-const PS_T: &[&str] = &["-", "u64", "u32", "su8", "xu64_8_8", "xu64_8_4", "xu64_4_8", "xq_8_8", "xu64_8_8_D", "xu8_1_1_D"];
+// `xiox2::Flatbuffer_…`: a flatbuffer payload without a schema file: the type-definition resource is refused AFTER the static config was written
+const PS_T: &[&str] = &["-", "u64", "u32", "su8", "xu64_8_8", "xu64_8_4", "xu64_4_8", "xq_8_8", "xu64_8_8_D", "xu8_1_1_D", "xiox2::Flatbuffer_8_8"];
+const RR_T: &[&str] = &["-", "u64", "u32", "xu64_8_8", "xq_4_4", "xiox2::Flatbuffer_8_8"];
 const PS_UH: &[&str] = &["-", "unit", "u64", "xh_4_4", "xh_4_8", "xu64_8_8", "xu64_8_16"];
 const ALIGN: &[&str] = &["-", "4", "8", "16", "32"];
 const ATTR_C: &[&str] = &["-", "0:0", "0:1", "1:0", "0:0,0:1", "0:0,1:1"];
@@ -40,13 +42,15 @@ fn dims(pat: &str) -> Vec<Dim> {
             d("so", FLAG_C, FLAG_O), d("sr", FLAG_C, FLAG_O), d("ff", FLAG_C, FLAG_O),
             d("ar", NUM_C, NUM_O), d("lr", NUM_C, NUM_O), d("br", NUM_C, NUM_O), d("rb", NUM_C, NUM_O),
             d("sv", NUM_C, NUM_O), d("cl", NUM_C, NUM_O), d("mn", NUM_C, NUM_O),
-            d("qt", &["-", "u64", "u32"], &["-", "u64", "u32"]), d("pt", &["-", "u64", "u32"], &["-", "u64", "u32"]),
+            d("qt", RR_T, RR_T), d("pt", RR_T, RR_T),
             d("qal", ALIGN, ALIGN), d("pal", ALIGN, ALIGN),
             d("ad", ATTR_C, ATTR_O), d("ak", NONE, KEY_O),
         ],
         _ => vec![
             d("rd", NUM_C, NUM_O), d("mn", NUM_C, NUM_O), d("kt", &["-", "u64", "u32"], &["-", "u64", "u32"]),
             d("e", &["-", "0", "1", "3"], NONE),
+            // the same key added twice: refused while the management segment is filled (after the static config was written)
+            d("dup", &["-", "-", "1"], NONE),
             d("ad", ATTR_C, ATTR_O), d("ak", NONE, KEY_O),
         ],
     }
@@ -137,6 +141,41 @@ fn matrix(a: &Args, pat: &str) -> Vec<Vec<String>> {
             }
         }
     }
+    // creates that are refused AFTER the static config was written (service resource refused): nothing may stay behind
+    let late: Vec<Vec<String>> = match pat {
+        "bb" => vec![vec!["dup=1".into()], vec!["e=3".into(), "dup=1".into(), "rd=1".into()], vec!["dup=1".into(), "ad=0:0".into()]],
+        "ps" => vec![vec!["t=xiox2::Flatbuffer_8_8".into()], vec!["t=xiox2::Flatbuffer_8_8_D".into(), "mp=0".into(), "ad=0:1".into()]],
+        "rr" => vec![vec!["qt=xiox2::Flatbuffer_8_8".into()], vec!["pt=xiox2::Flatbuffer_4_4".into(), "sv=1".into()],
+                     vec!["qt=xiox2::Flatbuffer_8_8".into(), "pt=xiox2::Flatbuffer_8_8".into()]],
+        _ => vec![],
+    };
+    for l in &late {
+        for first_node_holds_other in [false, true] {
+            let mut r = vec![];
+            if first_node_holds_other {
+                // the creating node already holds another service (its node directory has another tag)
+                r.push(call_line("create", 0, 1, 7, "ev", &[]));
+            }
+            r.push(call_line("create", 0, 0, 0, pat, l));
+            r.push(format!("exists 0 {pat}"));
+            r.push("ls".to_string());
+            r.push("list".to_string());
+            r.push(call_line("open", 1, 0, 1, pat, &[]));
+            if pat != "bb" {
+                r.push(call_line("ooc", 1, 0, 1, pat, l));
+                r.push("ls".to_string());
+            }
+            r.push(call_line("create", 1, 0, 2, pat, &[]));
+            r.push(call_line("create", 0, 0, 3, pat, l));
+            r.push(call_line("open", 0, 0, 3, pat, &[]));
+            r.push("list".to_string());
+            r.push("drop 2".to_string());
+            r.push("drop 3".to_string());
+            r.push("drop 7".to_string());
+            r.push("ls".to_string());
+            rounds.push(r);
+        }
+    }
     if pat == "ps" {
         // open_or_create as the creator
         for t in ["su8", "xu64_8_8", "xu8_1_1_D", "u64"] {
@@ -198,6 +237,11 @@ fn random_kv(rng: &mut Rng, pat: &str, creator: bool, dense: u64) -> Vec<String>
             }
             tok(d.key, pick_val(rng, dom), &mut kv);
         }
+    }
+    if pat == "rr" && kv.iter().any(|t| t.starts_with("qt=x") || t.starts_with("pt=x")) {
+        // request-response builders of slice payloads do not adjust 0 to 1 (finding reqres-slice-payload-zero-limit-panics,
+        // replayed separately): keep the zero limits away from the custom payload types here
+        kv.retain(|t| !(t.ends_with("=0") && ["ar=", "lr=", "br=", "rb=", "sv=", "cl=", "mn="].iter().any(|k| t.starts_with(k))));
     }
     kv
 }
